@@ -71,39 +71,42 @@ V3Of(uu, v1, v2) ==
   IN b \cup Nb(uu, vz)
 
 (* ---- the library and the look-up --------------------------------------------- *)
-LibCodes == Asc(ConnCodes(K))
 IdOfCode(c) == GenId(K)[c]
-(* functional: every row contained in a (m . a = n), ids with multiplicity        *)
-FunctIdBag(a) ==
-  LET rows == {c \in ConnCodes(K) : BitsOf(K, c) \subseteq BitsOf(K, a)}
-  IN [id \in {IdOfCode(c) : c \in rows} |-> Cardinality({c \in rows : IdOfCode(c) = id})]
-(* structural: the row whose decimal hash equals that of a (none if a is not in the library) *)
-StructIdBag(a) ==
-  LET rows == {c \in ConnCodes(K) : DecHi(K, c) = DecHi(K, a) /\ DecLo(K, c) = DecLo(K, a)}
-  IN [id \in {IdOfCode(c) : c \in rows} |-> Cardinality({c \in rows : IdOfCode(c) = id})]
+(* rows by decimal hash: mn -> the library rows with that hash                     *)
+HashRows == Tab([h \in {Dec(K, c) : c \in ConnCodes(K)} |-> {c \in ConnCodes(K) : Dec(K, c) = h}])
+RowsById == Tab([id \in 1..NCls |-> {c \in ConnCodes(K) : IdOfCode(c) = id}])
+BagOfRows(rows) == [id \in {IdOfCode(c) : c \in rows} |-> Cardinality(rows \cap RowsById[id])]
+(* structural: ix = (s == mn); none if a is not in the library                     *)
+StructIdBag(a) == IF Dec(K, a) \in DOMAIN HashRows THEN BagOfRows(HashRows[Dec(K, a)]) ELSE <<>>
+(* functional: every row contained in a (m . a = n), ids with multiplicity         *)
+FunctIdBag(a) == BagOfRows({c \in ConnCodes(K) : BitsOf(K, c) \subseteq BitsOf(K, a)})
 IdBag(a) == IF Funct THEN FunctIdBag(a) ELSE StructIdBag(a)
 
+(* the arrays f (13|199) and F (13|199 x n) are kept sparsely: only the entries     *)
+(* that have been incremented are in the domain (absent = 0)                        *)
+Merge(g, h) == [z \in DOMAIN g \cup DOMAIN h |-> BagGet(g, z) + BagGet(h, z)]
+
 Init == /\ adjm \in InputSet
-        /\ pc = "cu" /\ cu = 1
+        /\ pc = "u" /\ cu = 1
         /\ L1 = <<>> /\ i1 = 0 /\ L2 = <<>> /\ i2 = 0 /\ L3 = <<>> /\ i3 = 0
-        /\ tot = [id \in 1..NCls |-> 0]
-        /\ cnt = [id \in 1..NCls |-> [v \in 1..N |-> 0]]
+        /\ tot = <<>>
+        /\ cnt = <<>>
         /\ vis = <<>>
 
 Body(tup) ==
   LET a == TupCode(K, adjm, tup)
       bag == IdBag(a)
       nodes == {tup[k] : k \in 1..K}
-  IN /\ tot' = [id \in 1..NCls |-> tot[id] + BagGet(bag, id)]
-     /\ cnt' = [id \in 1..NCls |-> [v \in 1..N |-> cnt[id][v] + (IF v \in nodes THEN BagGet(bag, id) ELSE 0)]]
+  IN /\ tot' = Merge(tot, bag)
+     /\ cnt' = Merge(cnt, [z \in (DOMAIN bag) \X nodes |-> bag[z[1]]])
      /\ vis' = Append(vis, tup)
 
-NextU == /\ pc = "cu"
+NextU == /\ pc = "u"
          /\ IF cu > N - K + 1 THEN pc' = "done" /\ UNCHANGED <<L1, i1>>
             ELSE pc' = "v1" /\ L1' = Asc(V1Of(cu)) /\ i1' = 1
          /\ UNCHANGED <<adjm, cu, L2, i2, L3, i3, tot, cnt, vis>>
 NextV1 == /\ pc = "v1"
-          /\ IF i1 > Len(L1) THEN pc' = "cu" /\ cu' = cu + 1 /\ UNCHANGED <<L2, i2>>
+          /\ IF i1 > Len(L1) THEN pc' = "u" /\ cu' = cu + 1 /\ UNCHANGED <<L2, i2>>
              ELSE pc' = "v2" /\ L2' = Asc(V2Of(cu, L1[i1])) /\ i2' = 1 /\ UNCHANGED cu
           /\ UNCHANGED <<adjm, L1, i1, L3, i3, tot, cnt, vis>>
 NextV2 == /\ pc = "v2"
@@ -145,28 +148,43 @@ ProgressInv ==
   \A S \in ConnSubs(N, G0, K) : Min(S) < cu => S \in SeenSets
 (* candidate lists ascend (np.where order)                                          *)
 OrderInv == \A L \in {L1, L2, L3} : \A k \in 1..(Len(L) - 1) : L[k] < L[k + 1]
-(* the counters always hold the counts over the tuples visited so far              *)
+(* the counters, read as <<class, node, count>> / <<class, count>>                  *)
+CntTriples == {<<ClsOfId[z[1]], z[2], cnt[z]>> : z \in DOMAIN cnt}
+TotPairs == {<<ClsOfId[id], tot[id]>> : id \in DOMAIN tot}
+(* the counters always hold the counts over the node sets visited so far            *)
 PartialInv ==
-  LET cls(t) == ClassTab(K)[SubCode(K, G0, NodeSetOf(t))] IN
-  ~Funct => /\ \A id \in 1..NCls : tot[id] = Cardinality({k \in DOMAIN vis : cls(vis[k]) = ClsOfId[id]})
-            /\ \A id \in 1..NCls : \A v \in 1..N :
-                  cnt[id][v] = Cardinality({k \in DOMAIN vis : cls(vis[k]) = ClsOfId[id] /\ v \in NodeSetOf(vis[k])})
+  LET occ == Tab([S \in SeenSets |-> ClassTab(K)[SubCode(K, G0, S)]]) IN
+  /\ \A z \in DOMAIN cnt : z[1] \in 1..NCls /\ z[2] \in 1..N /\ cnt[z] > 0
+  /\ IF Funct THEN CntTriples = FunctTriples(K, occ) /\ TotPairs = FunctTotals(K, occ)
+     ELSE CntTriples = StructTriples(occ) /\ TotPairs = StructTotals(occ)
 (* refinement: the finished machine has visited exactly the connected K-subsets and *)
 (* its counters are the L0 counts                                                   *)
 FinalInv ==
   pc = "done" =>
-     LET occ == StructOcc(N, G0, K) IN
      /\ SeenSets = ConnSubs(N, G0, K)
      /\ Len(vis) = Cardinality(ConnSubs(N, G0, K))
      /\ IF Funct
         THEN LET occs == FunctOccs(N, G0, K) IN
-             /\ \A id \in 1..NCls : tot[id] = FunctTotal(K, occs, ClsOfId[id])
-             /\ \A id \in 1..NCls : \A v \in 1..N : cnt[id][v] = FunctNode(K, occs, ClsOfId[id], v)
-        ELSE /\ \A id \in 1..NCls : tot[id] = StructTotal(occ, ClsOfId[id])
-             /\ \A id \in 1..NCls : \A v \in 1..N : cnt[id][v] = StructNode(occ, ClsOfId[id], v)
+             CntTriples = FunctTriplesDirect(K, occs) /\ TotPairs = FunctTotalsDirect(K, occs)
+        ELSE LET occ == StructOcc(N, G0, K) IN
+             /\ \A cl \in Classes(K) : BagGet(tot, IdOfCode(cl)) = StructTotal(occ, cl)
+             /\ \A cl \in Classes(K) : \A v \in 1..N : BagGet(cnt, <<IdOfCode(cl), v>>) = StructNode(occ, cl, v)
+
+(* the look-up on EVERY pattern (not only those met on the inputs of this model): the   *)
+(* structural look-up finds exactly the class of a connected pattern and nothing for a  *)
+(* disconnected one; the functional look-up finds the bag of its connected sub-patterns *)
+LookupInv ==
+  (pc = "u" /\ cu = 1 /\ adjm = Zero(N)) =>
+     \A a \in AllCodes(K) :
+        LET bag == IdBag(a)
+            asCls == {<<ClsOfId[id], bag[id]>> : id \in DOMAIN bag}
+        IN IF Funct
+           THEN LET subs == SubPatterns(K, a) IN
+                asCls = {<<cl, Cardinality({d \in subs : ClassTab(K)[d] = cl})>> : cl \in {ClassTab(K)[d] : d \in subs}}
+           ELSE asCls = (IF a \in ConnCodes(K) THEN {<<ClassTab(K)[a], 1>>} ELSE {})
 
 (* ---- L0 lemmas, checked on every input (initial states only) -------------------- *)
-AtStart == pc = "cu" /\ cu = 1 /\ Lemmas
+AtStart == pc = "u" /\ cu = 1 /\ Lemmas
 (* sum of the structural counts = number of connected induced K-subgraphs; the       *)
 (* per-node counts of a class add up to K x its total                                 *)
 SumInv ==
@@ -175,7 +193,8 @@ SumInv ==
      /\ Sum(Classes(K), LAMBDA cl : StructTotal(occ, cl)) = Cardinality(ConnSubs(N, G0, K))
      /\ \A cl \in Classes(K) : Sum(1..N, LAMBDA v : StructNode(occ, cl, v)) = K * StructTotal(occ, cl)
 (* second formulations agree: "connected K-subset" by reachability in the induced     *)
-(* symmetrised graph; functional counts via the fixed sub-class bag of each class     *)
+(* symmetrised graph; functional counts via the fixed sub-class bag of each class;    *)
+(* the sparse <<class, node, count>> form = the dense table                            *)
 CrossInv ==
   AtStart =>
      LET occ == StructOcc(N, G0, K)
@@ -183,21 +202,20 @@ CrossInv ==
          sym == SymSupport(N, G0)
          inside(S) == Mat(N, LAMBDA i, j : IF i \in S /\ j \in S THEN sym[i][j] ELSE 0)
      IN /\ ConnSubs(N, G0, K) = {S \in kSubset(K, 1..N) : \A s \in S : S \subseteq ReachSet(N, inside(S), s)}
-        /\ \A cl \in Classes(K) : FunctTotal(K, occs, cl) = FunctTotalVia(K, occ, cl)
-        /\ \A cl \in Classes(K) : \A v \in 1..N : FunctNode(K, occs, cl, v) = FunctNodeVia(K, occ, cl, v)
-        /\ \A cl \in Classes(K) : FunctTotal(K, occs, cl) >= StructTotal(occ, cl)
+        /\ FunctTriples(K, occ) = FunctTriplesDirect(K, occs)
+        /\ FunctTotals(K, occ) = FunctTotalsDirect(K, occs)
+        /\ \A cl \in Range(occ) : FunctTotal(K, occs, cl) >= StructTotal(occ, cl)
         /\ StructTriples(occ) = {<<cl, v, StructNode(occ, cl, v)>> : cl \in Classes(K), v \in 1..N}
                                   \ {<<cl, v, 0>> : cl \in Classes(K), v \in 1..N}
-        /\ FunctTriples(K, occ) = {<<cl, v, FunctNode(K, occs, cl, v)>> : cl \in Classes(K), v \in 1..N}
-                                  \ {<<cl, v, 0>> : cl \in Classes(K), v \in 1..N}
-(* counts are invariant under relabelling the nodes: B = A[p][p] has the motif of A   *)
-(* on p(S) wherever ... i.e. node v of B plays the role of node p[v] of A              *)
+        /\ StructTotals(occ) = {<<cl, StructTotal(occ, cl)>> : cl \in Classes(K)} \ {<<cl, 0>> : cl \in Classes(K)}
+(* counts are invariant under relabelling the nodes: in B = A[p][p] node v plays the   *)
+(* role of node p[v] of A                                                              *)
 PermInv ==
   AtStart =>
-     LET occ == StructOcc(N, G0, K) IN
+     LET tr == StructTriples(StructOcc(N, G0, K))
+         ft == FunctTriples(K, StructOcc(N, G0, K)) IN
      \A p \in PermsOf(N) :
-        LET B == Permuted(N, G0, p)
-            occB == StructOcc(N, B, K)
-        IN /\ \A cl \in Classes(K) : StructTotal(occB, cl) = StructTotal(occ, cl)
-           /\ \A cl \in Classes(K) : \A v \in 1..N : StructNode(occB, cl, v) = StructNode(occ, cl, p[v])
+        LET occB == StructOcc(N, Permuted(N, G0, p), K)
+        IN /\ {<<t[1], p[t[2]], t[3]>> : t \in StructTriples(occB)} = tr
+           /\ {<<t[1], p[t[2]], t[3]>> : t \in FunctTriples(K, occB)} = ft
 =============================================================================
